@@ -111,7 +111,7 @@ class Prop(BaseProp):
         ext_t, ext_m = rng.random() < 0.4, rng.random() < 0.4
         headers = list(rng.choice(HEADERS))
         prefix_src = rng.choice(["none", "none", "cli", "config"])
-        prefix = None if prefix_src == "none" else rng.choice(["Pfx", "my.pkg", "A B", "p-1", "Prä✓", "日本"])
+        prefix = None if prefix_src == "none" else rng.choice(["Pfx", "my.pkg", "A B", "p-1", "Prä✓", "日本", ""])
         single = idx % 3 == 0
         res.sig = sig_hash([single, sep, ext_t, ext_m, len(headers), prefix_src, prefix])
         res.see("separators", sep)
@@ -152,7 +152,7 @@ class Prop(BaseProp):
                     return res
                 rst = open(pg, encoding="utf-8").read()
                 wit["rst"] = rst[:600]
-                base = (prefix + sep if prefix else "") + fname
+                base = (prefix + sep if prefix is not None else "") + fname
                 self.check_page(res, rst, base if ext_t else strip_ext(base), base if ext_m else strip_ext(base), headers,
                                 mdoc, wit, "single-file")
                 res.count("single_file_pages")
@@ -209,7 +209,7 @@ class Prop(BaseProp):
                 res.violate(o.crash_class() or f"exit:{o.exit_code}", str(o.exc)[:200], wit)
                 return res
             ref = reference_walk(tree, inp, True, True, gitmatch.Spec([]))
-            eff_prefix = prefix if prefix else "proj"
+            eff_prefix = prefix if prefix is not None else "proj"
             titles = {}
             res.nontrivial = len(ref.pages) >= 2
             for p in ref.pages:
@@ -228,14 +228,14 @@ class Prop(BaseProp):
             res.sig = sig_hash([sep, ext_t, ext_m, len(headers), prefix_src, prefix, tree.shape(),
                                 sorted((k, bool(v), bool(v and v["name"])) for k, v in mdocs.items())])
             if multi and o.ok:
-                for relp, pfx, base_name in (("s_one.rst", prefix or "second", "s_one.cmake"),
-                                            ("s_sub/s_two.rst", prefix or "second", "s_sub/s_two.cmake"),
+                for relp, pfx, base_name in (("s_one.rst", prefix if prefix is not None else "second", "s_one.cmake"),
+                                            ("s_sub/s_two.rst", prefix if prefix is not None else "second", "s_sub/s_two.cmake"),
                                             ("lone_input.rst", prefix, "lone_input.cmake")):
                     pg = os.path.join(out, relp)
                     if not os.path.exists(pg):
                         res.violate("page-missing:multi-input", relp, wit)
                         continue
-                    base = (pfx + sep if pfx else "") + base_name
+                    base = (pfx + sep if pfx is not None else "") + base_name
                     self.check_page(res, open(pg, encoding="utf-8").read(), base if ext_t else strip_ext(base),
                                     base if ext_m else strip_ext(base), headers, None, dict(wit, page=relp), "later-input")
             for t, ps in titles.items():
